@@ -63,6 +63,11 @@ F1C == UNION { { [kind |-> "f1", op |-> op, A |-> InA[k], B |-> BigB, ta |-> ta,
                     op \in Ops, ta \in TypesFor(k), tb \in TypesFor("box") } : k \in Kinds }
        \cup UNION { { [kind |-> "f1", op |-> op, A |-> BigB, B |-> InA[k], ta |-> ta, tb |-> tb, w |-> 20] :
                     op \in Ops, ta \in TypesFor("box"), tb \in TypesFor(k) } : k \in Kinds }
+(* F1D: two *Bounds that do not meet - beside, above, below or diagonally apart, of any relative height and width - all four
+   operations, both operands passed as *Bounds *)
+F1D == { [kind |-> "f1", op |-> op, A |-> a, B |-> b, ta |-> t[1], tb |-> t[2], w |-> 4 * NA] :
+           op \in Ops, a \in SA.box, b \in SB.box, t \in {<<"Bounds", "Bounds">>} }
+F1DApart == {x \in F1D : Apart(x.A[1][1], x.B[1][1])}
 (* F2: lattice triangles and quadrilaterals (coordinates x 4), valid and in general position *)
 Grid2 == {<<4 * x, 4 * y>> : x \in 0..F2N, y \in 0..F2N}
 Tri == TLCEval({r \in [1..3 -> Grid2] : HashP(r, 1) % MF2 = 0 /\ SimpleRing(r)})
@@ -74,6 +79,6 @@ F2 == { [kind |-> "f2", op |-> op, A |-> << <<p[1]>> >>, B |-> << <<p[2]>> >>, t
 (* the same operations at other magnitudes (coordinates times 2^sh, exact) *)
 Shifted == {[kind |-> x.kind, op |-> x.op, A |-> x.A, B |-> x.B, ta |-> x.ta, tb |-> x.tb, w |-> x.w, sh |-> s] :
                x \in {y \in F1Thin : (HashS(y.A) + HashS(y.B)) % 4 = 0}, s \in {-20, 24}}
-GenInit == c \in F1Thin \cup F1B \cup F1C \cup Shifted \cup (IF F2N = 0 THEN {} ELSE F2) /\ PrintT(ToJson(c))
+GenInit == c \in F1Thin \cup F1B \cup F1C \cup F1DApart \cup Shifted \cup (IF F2N = 0 THEN {} ELSE F2) /\ PrintT(ToJson(c))
 GenSpec == GenInit /\ [][UNCHANGED c]_c
 =============================================================================
